@@ -46,7 +46,7 @@ def fixed_cases(tier):
 
 def gen_case(rng, tier, i):
     r = rng.random()
-    kw = dict(asphere_p=0.15, glass_p=0.2, immersed_p=0.12, neg_power_p=0.3, image='any')
+    kw = dict(asphere_p=0.15, glass_p=0.2, immersed_p=0.12, neg_power_p=0.3, image='any', obj_medium_p=0.25)
     if r < 0.25:
         kw['mirrors_p'] = 0.35
     stops = ['first', 'interior', 'last', 'any']
